@@ -675,6 +675,23 @@ static jbn_visitor_cmd_t _jbl_clone_node_visit(
   return JBL_VCMD_OK;
 }
 
+// releases a partly built heap copy (its depth is bounded: the copying visitor stops at JBL_MAX_NESTING_LEVEL)
+static void _jbl_clone_release(struct jbl_node *n) {
+  if (n->type >= JBV_OBJECT) {
+    for (struct jbl_node *c = n->child, *next; c; c = next) {
+      next = c->next;
+      _jbl_clone_release(c);
+    }
+  }
+  if (n->key) {
+    free((void*) n->key);
+  }
+  if (n->type == JBV_STR) {
+    free((void*) n->vptr);
+  }
+  free(n);
+}
+
 iwrc jbn_clone(struct jbl_node *src, struct jbl_node **targetp, struct iwpool *pool) {
   *targetp = 0;
   struct jbl_node *n = _jbl_clone_node_struct(src, pool);
@@ -687,7 +704,12 @@ iwrc jbn_clone(struct jbl_node *src, struct jbl_node **targetp, struct iwpool *p
     .op = n
   };
   iwrc rc = jbn_visit(src, 0, &vctx, _jbl_clone_node_visit);
-  RCRET(rc);
+  if (rc) {
+    if (!pool) { // the part copied so far (heap mode) is released: nothing is handed out
+      _jbl_clone_release(n);
+    }
+    return rc;
+  }
   *targetp = n;
   return 0;
 }
